@@ -257,7 +257,21 @@ def setupOp (args : List String) : Option String :=
       | _, _ => "0"
     pure (" ".intercalate [fSetupOut r.2.1, fList fOp r.2.2, fObs z10 z90 r.1 .ok, fObs z10 z90 c.1 c.2, spec])) args
 
+/-- `c07.table decls hist` → `0` when a declaration (name declared twice) or a `modify_bounds` (undeclared name) raises,
+    else `1` + the table the optimizer must see: `name mode fit b0 b1` per entry, in declaration order
+    (`TaurexModel/FittableTable.lean`; declarations on the wire as in `c08.declared`) -/
+def tableOp (args : List String) : Option String :=
+  run (do
+    let decls ← listOf Taurex.Ops.C08.declP
+    let hist ← listOf (do let n ← Taurex.Ops.C08.str; let a ← flt; let b ← flt; pure (n, a, b))
+    match Taurex.FittableTable.declaredTable decls hist with
+    | none => pure "0"
+    | some t =>
+      pure ("1 " ++ fList (fun (e : Taurex.FittableTable.Entry Float) =>
+        s!"{Taurex.Ops.C08.esc e.name} {fMode e.mode} {fB e.fit} {fF e.b0} {fF e.b1}") t)) args
+
 def ops : List Taurex.Proto.Op :=
-  [("c07.run", runOp false), ("c07.run_pinned", runOp true), ("c07.implied", impliedOp), ("c07.setup", setupOp)]
+  [("c07.run", runOp false), ("c07.run_pinned", runOp true), ("c07.implied", impliedOp), ("c07.setup", setupOp),
+   ("c07.table", tableOp)]
 
 end Taurex.Ops.C07
